@@ -25,24 +25,55 @@ Section Sets.
 Variable F : opts.
 (* the universe of set members of the run, as a predicate *)
 Variable SU : atom -> Prop.
-(* no aliases: two members that the table identifies have one hash text and one skip decision *)
+(* the atoms that can become keys of the table: the set members, and the internals (_value_, _name_, _sort_order_) that
+   _prep_obj stores for an Enum member hashed as an object *)
+Definition SUc (x : atom) : Prop := SU x \/ exists a, SU a /\ In x (stored_internals F a).
+(* no aliases: two such atoms that the table identifies have one hash text and one skip decision *)
 Definition alias_freeP : Prop :=
-  forall x y, SU x -> SU y -> mkey_eq (unwrap F x) (unwrap F y) = true -> hatomF F x = hatomF F y /\ excl_hash F x = excl_hash F y.
-(* the table holds what the table-free computation gives, for members that were hashed *)
+  forall x y, SUc x -> SUc y -> mkey_eq (unwrap F x) (unwrap F y) = true -> hatomF F x = hatomF F y /\ excl_hash F x = excl_hash F y.
+(* the table holds what the table-free computation gives, for atoms that were hashed *)
 Definition memo_okP (m : memo) : Prop :=
-  forall k t, In (k, t) m -> exists x, SU x /\ k = unwrap F x /\ t = hatomF F x /\ excl_hash F x = false.
+  forall k t, In (k, t) m -> exists x, SUc x /\ k = unwrap F x /\ t = hatomF F x /\ excl_hash F x = false.
 
 Hypothesis no_alias : alias_freeP.
+
+Lemma internal_plain : forall a x, In x (stored_internals F a) -> unwrap F x = x /\ excl_hash F x = false.
+Proof.
+  intros a x H. unfold stored_internals in H. destruct (o_enum F || excluded F TStr); [destruct H|].
+  apply filter_In in H. destruct H as [Hi He]. apply negb_true_iff in He.
+  destruct a as [| b | z | m e | s | s | u o | i | m e | y mo dd | u | u | cl n o v]; cbn [internals In] in Hi; try contradiction.
+  destruct Hi as [Hi|[Hi|[Hi|[]]]]; subst x.
+  - destruct v; cbn [atom_of_e unwrap excl_hash atom_ty] in *; split; try reflexivity; exact He.
+  - cbn [unwrap excl_hash atom_ty] in *. split; [reflexivity|exact He].
+  - cbn [unwrap excl_hash atom_ty] in *. split; [reflexivity|exact He].
+Qed.
+
+Lemma minsert_ok : forall m x, memo_okP m -> SUc x -> unwrap F x = x -> excl_hash F x = false -> memo_okP (minsert F m x).
+Proof.
+  intros m x Hm Sx Ux Ex. unfold minsert. destruct (mlook m x); [exact Hm|].
+  intros k t [Hin|Hin]; [|apply Hm; exact Hin]. injection Hin as E1 E2. subst k t.
+  exists x. repeat split; try assumption. symmetry. exact Ux.
+Qed.
+
+Lemma minsert_all_ok : forall l m, memo_okP m ->
+  (forall x, In x l -> SUc x /\ unwrap F x = x /\ excl_hash F x = false) -> memo_okP (fold_left (minsert F) l m).
+Proof.
+  induction l as [|x l IH]; intros m Hm Hl; cbn [fold_left]; [exact Hm|].
+  apply IH; [|intros y Hy; apply Hl; right; exact Hy].
+  destruct (Hl x (or_introl eq_refl)) as [Sx [Ux Ex]]. apply minsert_ok; assumption.
+Qed.
 
 Lemma mhash_spec : forall m a, memo_okP m -> SU a ->
   exists m', mhash F m a = (if excl_hash F a then None else Some (hatomF F a), m') /\ memo_okP m'.
 Proof.
   intros m a Hm Ha. unfold mhash. destruct (mlook m (unwrap F a)) as [t|] eqn:El.
   - destruct (mlook_In _ _ _ El) as [k [Hin Hk]]. destruct (Hm k t Hin) as [x [Sx [Ek [Et Ex]]]]. subst k t.
-    destruct (no_alias x a Sx Ha Hk) as [E1 E2]. rewrite <- E2, Ex, E1. exists m. split; [reflexivity|exact Hm].
+    destruct (no_alias x a Sx (or_introl Ha) Hk) as [E1 E2]. rewrite <- E2, Ex, E1. exists m. split; [reflexivity|exact Hm].
   - destruct (excl_hash F a) eqn:Ex; [exists m; split; [reflexivity|exact Hm]|].
-    eexists. split; [reflexivity|]. intros k t [Hin|Hin]; [|apply Hm; exact Hin].
-    injection Hin as E1 E2. subst k t. exists a. repeat split; assumption.
+    eexists. split; [reflexivity|]. intros k t [Hin|Hin].
+    + injection Hin as E1 E2. subst k t. exists a. repeat split; try assumption. left. exact Ha.
+    + revert k t Hin. apply minsert_all_ok; [exact Hm|].
+      intros x Hx. destruct (internal_plain a x Hx) as [Ux Exx]. split; [right; exists a; split; assumption|split; assumption].
 Qed.
 
 Definition texts (l : list atom) : list (atom * pystr) :=
@@ -82,10 +113,15 @@ Qed.
 End Sets.
 
 (* the list form of the two definitions *)
-Definition alias_free (F : opts) (l : list atom) : Prop :=
-  forall x y, In x l -> In y l -> mkey_eq (unwrap F x) (unwrap F y) = true -> hatomF F x = hatomF F y /\ excl_hash F x = excl_hash F y.
-Definition memo_ok (F : opts) (l : list atom) (m : memo) : Prop :=
-  forall k t, In (k, t) m -> exists x, In x l /\ k = unwrap F x /\ t = hatomF F x /\ excl_hash F x = false.
+Definition alias_free (F : opts) (l : list atom) : Prop := alias_freeP F (fun x => In x l).
+Definition memo_ok (F : opts) (l : list atom) (m : memo) : Prop := memo_okP F (fun x => In x l) m.
+(* a universe without Enum members (or under use_enum_value): no internals are stored *)
+Lemma SUc_plain : forall F (l : list atom) x, (forall a, In a l -> is_enum a = false) -> SUc F (fun y => In y l) x -> In x l.
+Proof.
+  intros F l x Hl [H|[a [Ha Hx]]]; [exact H|].
+  unfold stored_internals in Hx. destruct (o_enum F || excluded F TStr); [destruct Hx|].
+  apply filter_In in Hx. destruct Hx as [Hx _]. specialize (Hl a Ha). destruct a; cbn in Hl; try discriminate; destruct Hx.
+Qed.
 
 Theorem mhash_list_alias_free : forall F U l m, alias_free F U -> memo_ok F U m -> incl l U ->
   exists m', mhash_list F m l = (map (fun a => (a, hatomF F a)) (filter (fun a => negb (excl_hash F a)) l), m') /\ memo_ok F U m'.
@@ -593,7 +629,7 @@ Theorem memo_alias_refuted :
   ~ alias_free no_opts [AInt 1; AFloat 1 0].
 Proof.
   split; [vm_compute; reflexivity|]. split; [vm_compute; reflexivity|].
-  intros H. destruct (H (AInt 1) (AFloat 1 0)) as [K _]; [left; reflexivity|right; left; reflexivity|reflexivity|].
+  intros H. destruct (H (AInt 1) (AFloat 1 0)) as [K _]; [left; left; reflexivity|left; right; left; reflexivity|reflexivity|].
   vm_compute in K. discriminate.
 Qed.
 (* ... and a member of an excluded type is hashed after all when an ==-equal member was stored before: {1.0} against
@@ -610,7 +646,11 @@ Proof. repeat split; vm_compute; reflexivity. Qed.
 Definition mm_U : list atom := [AInt 1; AInt 2; AFloat 5 1; AStr (s2p "a"); ADec 35 (-1); ABool true].
 Lemma mm_alias_free : alias_free MFxfloat mm_U.
 Proof.
-  intros x y Hx Hy H. unfold mm_U in *. cbn [In] in Hx, Hy.
+  intros x y Hx Hy H.
+  assert (forall a, In a mm_U -> is_enum a = false) as Hpl
+    by (intros a Ha; unfold mm_U in Ha; cbn [In] in Ha; repeat (destruct Ha as [Ha|Ha]; [subst; reflexivity|]); destruct Ha).
+  apply (SUc_plain MFxfloat mm_U x Hpl) in Hx. apply (SUc_plain MFxfloat mm_U y Hpl) in Hy.
+  unfold mm_U in *. cbn [In] in Hx, Hy.
   destruct Hx as [Hx|[Hx|[Hx|[Hx|[Hx|[Hx|[]]]]]]], Hy as [Hy|[Hy|[Hy|[Hy|[Hy|[Hy|[]]]]]]]; subst;
     try (split; reflexivity); vm_compute in H; discriminate.
 Qed.
